@@ -320,6 +320,8 @@ def run(ck):
     k = c.consts.get(M + "NUM_ADDED_FUNCTIONS")
     ck.ob("CONST", M + "NUM_ADDED_FUNCTIONS", "value", k is not None and k.get("v") == "1", "NUM_ADDED_FUNCTIONS = %s" % (k.get("v") if k else None), "")
 
+    compiled_charge_rules(ck, c)
+
 
 def freeze():
     c = crate("sc", W)
@@ -331,3 +333,59 @@ def freeze():
     os.makedirs(os.path.dirname(SPEC), exist_ok=True)
     json.dump(out, open(SPEC, "w"), indent=1, sort_keys=True)
     return out
+
+
+def compiled_charge_rules(ck, c):
+    """Every TickEnergy instruction of the metered module becomes its own interpreter instruction: the compiler arm is a
+    straight line that emits the opcode and the amount carried by the instruction (no merging, no condition), and the
+    interpreter charges exactly the amount it reads."""
+    from .c01 import enum_switch, opname
+    hp = [p for p in c.paths() if re.search(r"BackPatch as concordium_wasm::validate::Handler<Ctx, &concordium_wasm::types::OpCode>>::handle_opcode$", p)]
+    if not ck.anchor(len(hp) == 1, "TAB", "BackPatch::handle_opcode", "function exists"):
+        return
+    hf = Fn(c.get(hp[0]))
+    onames = [v["name"] for v in c.adts[W + "::types::OpCode"]["variants"]]
+    hsw = enum_switch(hf, 90)
+    if not ck.anchor(hsw is not None, "TAB", hf.path, "opcode dispatch"):
+        return
+    tbs = [tb for v, tb in hsw[1]["t"] if onames[int(v)] == "TickEnergy"]
+    if not ck.anchor(len(tbs) == 1, "TAB", hf.path, "TickEnergy arm"):
+        return
+    tb = tbs[0]
+    rr = hf.reject_region()
+    # walk the arm: it must be a straight line up to the point where all arms meet
+    entries = sorted(set(t2 for _, t2 in hsw[1]["t"]))
+    common = None
+    for e in entries[:40]:
+        r = hf.reach_from([e])
+        common = r if common is None else (common & r)
+    cur, seq, straight, steps = tb, [], True, 0
+    while cur is not None and cur not in (common or set()) and steps < 80:
+        steps += 1
+        t = hf.term(cur)
+        if t["k"] == "call":
+            p = t["f"].get("path", "")
+            if re.search(r"artifact::Instructions::push$", p):
+                seq.append("OP:" + (opname(hf, t["args"][1]) or "?"))
+            elif re.search(r"artifact::Instructions::push_u32$", p):
+                o = hf.origins(t["args"][1], deep=True)
+                seq.append("u32:" + ("payload" if ("arg", 5) in o or any(a[0] == "field" for a in o) else "?"))
+            elif re.search(r"artifact::(Instructions|BackPatch)::", p):
+                seq.append(p.split("::")[-1])
+            cur = t.get("target")
+        elif t["k"] == "goto":
+            cur = t["target"]
+        elif t["k"] == "switch":
+            live = sorted(set(b for b in ([x for _, x in t["t"]] + [t["o"]]) if b not in rr and hf.term(b)["k"] != "unreachable"))
+            if len(live) != 1:
+                straight = False
+                break
+            cur = live[0]
+        elif t["k"] in ("drop", "assert"):
+            cur = t.get("target")
+        else:
+            break
+    ok = straight and seq[:2] == ["OP:TickEnergy", "u32:payload"] and len(seq) == 2
+    ck.ob("TAB", hf.path, "charge-compiled-one-to-one", ok,
+          "the TickEnergy arm unconditionally emits the opcode followed by the instruction's own amount" if ok else
+          "the TickEnergy arm is not the straight line [opcode, amount] (found %s, straight: %s): charges that are merged, moved or dropped no longer sit in front of the segment they pay for" % (seq, straight), hf.loc(tb))
